@@ -1,0 +1,16 @@
+//go:build verif
+
+package utils
+
+// Contracts for helpers used by reflection descriptor creation (C15). Comment-only file, read by /verif/engine (govc).
+
+//@ func GetAnnotationsAsMap(annotations parser.Annotations) map[string][]string
+//@   requires forall i int :: 0 <= i && i < len(annotations) ==> annotations[i] != nil
+//@   ensures result != nil && fresh(result)
+//@   ensures forall i int :: 0 <= i && i < len(annotations) ==> inDom(result, annotations[i].Key)
+//@   ensures forall k string :: inDom(result, k) ==> exists i int :: 0 <= i && i < len(annotations) && annotations[i].Key == k && result[k] == annotations[i].Values
+//@   ensures forall i int :: 0 <= i && i < len(annotations) && (forall j int :: i < j && j < len(annotations) ==> annotations[j].Key != annotations[i].Key) ==> result[annotations[i].Key] == annotations[i].Values
+//@   loop 1 invariant annotationsMap != nil && fresh(annotationsMap)
+//@   loop 1 invariant forall i int :: 0 <= i && i < $i ==> inDom(annotationsMap, annotations[i].Key)
+//@   loop 1 invariant forall k string :: inDom(annotationsMap, k) ==> exists i int :: 0 <= i && i < $i && annotations[i].Key == k && annotationsMap[k] == annotations[i].Values
+//@   loop 1 invariant forall i int :: 0 <= i && i < $i && (forall j int :: i < j && j < $i ==> annotations[j].Key != annotations[i].Key) ==> annotationsMap[annotations[i].Key] == annotations[i].Values
